@@ -711,3 +711,10 @@ def isna(x):
 isnull = isna
 
 from .symdf import DataFrame  # noqa: E402  (DataFrame model lives in its own module)
+
+
+def __getattr__(name):
+    from .values import UnsupportedAttribute
+    if name.startswith("__"):
+        raise AttributeError(name)
+    raise UnsupportedAttribute(f"pandas.{name}")
